@@ -158,6 +158,11 @@ def run(ctx):
             docs.append({"doc": {"r": g}, "cls": "valid", "path": ()})
             docs.append({"doc": {"r": goods[0], "o": g, "l": [g, goods[-1]]}, "cls": "valid", "path": ()})
         cases.append(Case("c02f%d" % fi, root, docs, fam="formats"))
+    # allOf members that describe the same property with complementary keywords, the first a definition also used on its own: every document
+    # valid for the definition alone, or for the group, is accepted (the valid halves of the overlay family of C04-C07)
+    from vlib.overlay import overlay_cases
+    for kind in ("items", "string", "bound", "required"):
+        cases = cases + overlay_cases(kind, "c02o" + kind[0])
     cf = cross_file_cases()
     run_cases(ctx, cases + cf, "c02")
     nv = evaluate(ctx, cases, CLASSES, {k: "valid" for k in CLASSES}, "valid documents")
